@@ -45,13 +45,30 @@ class ForeignCallFaults:
         self.count = 0
         self.seen = []
         self.fired = None
+        self.importing = 0
         self.prefix = os.path.join(_boot.REPO, "mlinsights") + os.sep
         self._prev = None
+
+    def _import_trace(self, frame, event, arg):
+        if event == "return":
+            self.importing -= 1
+        return self._import_trace
 
     def _trace(self, frame, event, arg):
         if event != "call":
             return None
         code = frame.f_code
+        if code.co_filename.startswith("<frozen importlib"):
+            # What a first import executes (module bodies, class bodies) happens
+            # once per process: it is not part of the operation and is never a
+            # crossing, otherwise the numbering would depend on what ran before
+            # in this process.
+            if code.co_name == "_find_and_load":
+                self.importing += 1
+                return self._import_trace
+            return None
+        if self.importing:
+            return None
         if code.co_filename.startswith(self.prefix):
             return None
         back = frame.f_back
